@@ -1,5 +1,6 @@
 import KitModel.Go.Prelude
 import KitModel.Coalescing
+import Std.Data.HashSet
 /-!
 Driver for property C09: `kitdrv C09`.
 
@@ -80,25 +81,29 @@ def tauSucc (cfg : Config) (hooks : Bool) (d : DState) : List DState :=
     else []
   ms ++ a ++ c
 
-def insertNew (seen : List DState) (x : DState) : List DState × Bool :=
-  if seen.contains x then (seen, false) else (x :: seen, true)
+/-- The counters that no transition reads (they only exist for the theorems) are zeroed so that
+states differing in nothing else are merged. -/
+def norm (d : DState) : DState :=
+  { d with m := { d.m with adds := 0, fires := 0, consumed := 0, dropped := 0, closeReturned := 0,
+                           wk := 0, armedAt := 0 } }
 
 /-- τ-closure by worklist; `fuel` bounds the number of expansions (every τ step decreases a
 finite measure, so the closure is finite; the bound is never reached in practice and reaching it
-is reported as a reject by the caller through `fuelOut`). -/
-def closure (cfg : Config) (hooks : Bool) : Nat → List DState → List DState → List DState × Bool
+is reported as a reject by the caller). -/
+def closure (cfg : Config) (hooks : Bool) :
+    Nat → List DState → Std.HashSet DState → Std.HashSet DState × Bool
   | 0, todo, seen => (seen, todo.isEmpty)
   | _ + 1, [], seen => (seen, true)
   | fuel + 1, d :: todo, seen =>
-    let succs := tauSucc cfg hooks d
-    let (seen', todo') := succs.foldl (fun (acc : List DState × List DState) x =>
-      let (sn, isNew) := insertNew acc.1 x
-      if isNew then (sn, x :: acc.2) else acc) (seen, todo)
+    let succs := (tauSucc cfg hooks d).map norm
+    let (seen', todo') := succs.foldl (fun (acc : Std.HashSet DState × List DState) x =>
+      if acc.1.contains x then acc else (acc.1.insert x, x :: acc.2)) (seen, todo)
     closure cfg hooks fuel todo' seen'
 
 def closeSet (cfg : Config) (hooks : Bool) (ds : List DState) : List DState × Bool :=
-  let ds := ds.eraseDups
-  closure cfg hooks 200000 ds ds
+  let init : Std.HashSet DState := ds.foldl (fun acc d => acc.insert (norm d)) {}
+  let (set, complete) := closure cfg hooks 2000000 init.toList init
+  (set.toList, complete)
 
 def quiescent (cfg : Config) (hooks : Bool) (d : DState) : Bool :=
   (tauSucc cfg hooks d).isEmpty && d.rAdd == 0 && d.uIn == 0 && d.uTm == 0 && d.blocked != 1
